@@ -227,10 +227,147 @@ fn chrony_hook(_req: RequestBody, _opt: ClientOptions) -> std::io::Result<Reply>
     }
 }
 
-static HOOKS: Hooks = Hooks { sched: None, chrony_query: Some(chrony_hook) };
+// ---------------------------------------------------------------------------------------------
+// Channels and loop points for a single-threaded driver. The daemon's threads talk through the stand-in
+// `mpsc`; here everything runs on the calling thread, so a channel is just a counter of queued messages:
+// a receive takes a queued message, reports "disconnected" when every sender is gone, lets a timed
+// receive time out at once (virtual time is moved by the driver, not by waiting), and refuses to block for
+// ever (LoopEscape). The state is per thread: the engines run many drivers in parallel threads.
+
+#[derive(Clone, Copy)]
+struct Chan {
+    queued: usize,
+    senders: usize,
+}
+
+/// One daemon lifetime of the polling loop, driven from its loop point (`poller:loop`).
+struct Lifetime {
+    polls: usize,
+    next: usize,
+    step: Box<dyn FnMut(usize) -> Query>,
+    after: Box<dyn FnMut(usize)>,
+}
+
+thread_local! {
+    static CHANS: RefCell<Vec<Chan>> = const { RefCell::new(Vec::new()) };
+    static LIFETIME: RefCell<Option<Lifetime>> = const { RefCell::new(None) };
+}
+
+fn h_chan_new() -> usize {
+    CHANS.with(|c| {
+        let mut c = c.borrow_mut();
+        c.push(Chan { queued: 0, senders: 1 });
+        c.len() - 1
+    })
+}
+fn chan<R>(id: usize, f: impl FnOnce(&mut Chan) -> R) -> Option<R> {
+    CHANS.try_with(|c| c.try_borrow_mut().ok().and_then(|mut c| c.get_mut(id).map(f))).ok().flatten()
+}
+fn h_sender_clone(id: usize) {
+    chan(id, |c| c.senders += 1);
+}
+fn h_sender_drop(id: usize) {
+    chan(id, |c| c.senders = c.senders.saturating_sub(1));
+}
+fn h_receiver_drop(_id: usize) {}
+fn h_send(_id: usize) -> verif::Ctl {
+    verif::Ctl::Proceed
+}
+fn h_sent(id: usize, ok: bool) {
+    if ok {
+        chan(id, |c| c.queued += 1);
+    }
+}
+fn h_recv(id: usize, timeout: Option<std::time::Duration>) -> verif::RecvCtl {
+    match chan(id, |c| {
+        if c.queued > 0 {
+            c.queued -= 1;
+            Some(verif::RecvCtl::Take)
+        } else if c.senders == 0 {
+            Some(verif::RecvCtl::Disconnected)
+        } else {
+            None
+        }
+    }) {
+        Some(Some(r)) => r,
+        Some(None) => match timeout {
+            Some(_) => verif::RecvCtl::Timeout,
+            // nothing queued, senders alive, no timeout: on a single thread this would wait for ever
+            None => std::panic::resume_unwind(Box::new(LoopEscape)),
+        },
+        None => verif::RecvCtl::Disconnected,
+    }
+}
+fn h_spawn() -> usize {
+    usize::MAX
+}
+fn h_thread_begin(_id: usize) {}
+fn h_thread_end(_id: usize, _panicked: bool) {}
+fn h_join(_id: usize) -> verif::Ctl {
+    verif::Ctl::Proceed
+}
+fn h_reverse_keys() -> bool {
+    false
+}
+fn h_fault_point(name: &'static str) -> verif::FaultAction {
+    if name != "poller:loop" {
+        return verif::FaultAction::None;
+    }
+    // take the lifetime out while its callbacks run (they use the channels and the clock)
+    let lt = LIFETIME.with(|l| l.borrow_mut().take());
+    let mut lt = match lt {
+        Some(lt) => lt,
+        None => return verif::FaultAction::None,
+    };
+    if lt.next > 0 {
+        (lt.after)(lt.next - 1);
+    }
+    let action = if lt.next >= lt.polls {
+        verif::FaultAction::Return
+    } else {
+        let q = (lt.step)(lt.next);
+        script(vec![q]);
+        lt.next += 1;
+        verif::FaultAction::None
+    };
+    LIFETIME.with(|l| *l.borrow_mut() = Some(lt));
+    action
+}
+
+static HOOKS: Hooks = Hooks {
+    sched: Some(verif::SchedHooks {
+        chan_new: h_chan_new,
+        sender_clone: h_sender_clone,
+        sender_drop: h_sender_drop,
+        receiver_drop: h_receiver_drop,
+        send: h_send,
+        sent: h_sent,
+        recv: h_recv,
+        spawn: h_spawn,
+        thread_begin: h_thread_begin,
+        thread_end: h_thread_end,
+        join: h_join,
+        fault_point: h_fault_point,
+        reverse_keys: h_reverse_keys,
+    }),
+    chrony_query: Some(chrony_hook),
+};
 
 pub fn install() {
     verif::install(&HOOKS);
+}
+
+/// Write `value` to a stand-in for a sysfs attribute: what such a file does NOT do is tell a change of its
+/// content through its metadata (the inode's mtime is fixed when it is created and the size is always one
+/// page) - so the content is padded to a fixed width and the time stamps are pinned.
+pub fn write_sysfs_like(path: &std::path::Path, value: i64) {
+    let _ = std::fs::write(path, format!("{value:019}\n"));
+    if let Ok(c) = std::ffi::CString::new(path.to_str().unwrap_or("")) {
+        let t = libc::timespec { tv_sec: 1_000_000_000, tv_nsec: 0 };
+        let times = [t, t];
+        // SAFETY: valid path and array of two timespecs
+        unsafe { libc::utimensat(libc::AT_FDCWD, c.as_ptr(), times.as_ptr(), 0) };
+    }
 }
 
 pub fn script(q: Vec<Query>) {
@@ -280,6 +417,38 @@ impl PollerLife {
             out.push(m);
         }
         out
+    }
+
+    /// A whole lifetime of the real polling loop in ONE invocation (so that whatever the loop keeps in its
+    /// own variables from one poll to the next is kept): `polls` iterations. Before iteration k the loop point
+    /// calls `step(k)`, which sets the virtual clock and the environment of that poll and returns the scripted
+    /// chronyd answer; `after(k)` runs once iteration k is complete (its messages are then in the result).
+    /// Returns the messages sent to the writer thread, per iteration.
+    pub fn run_lifetime(&mut self, phc: Option<PhcInfo>, polls: usize, step: impl FnMut(usize) -> Query + 'static, mut after: impl FnMut(usize) + 'static) -> Vec<Vec<Message>> {
+        let (mut mbox, dbox) = new_channel_web(vec![ChannelId::ClockErrorBoundPoller, ChannelId::ShmWriter]);
+        let shm_mbox = Rc::new(mbox.get_mailbox(&ChannelId::ShmWriter).unwrap());
+        let my_mbox = mbox.get_mailbox(&ChannelId::ClockErrorBoundPoller).unwrap();
+        let ctx = Context { mbox: my_mbox, dbox, channel_id: ChannelId::ClockErrorBoundPoller };
+        let out: Rc<RefCell<Vec<Vec<Message>>>> = Rc::new(RefCell::new(vec![]));
+        let (o2, m2) = (out.clone(), shm_mbox.clone());
+        let after_all = move |k: usize| {
+            let mut v = vec![];
+            while let Ok(m) = m2.try_recv() {
+                v.push(m);
+            }
+            o2.borrow_mut().push(v);
+            after(k);
+        };
+        LIFETIME.with(|l| *l.borrow_mut() = Some(Lifetime { polls, next: 0, step: Box::new(step), after: Box::new(after_all) }));
+        script(vec![]);
+        let poller = &mut self.poller;
+        let r = std::panic::catch_unwind(std::panic::AssertUnwindSafe(|| verif_poller::run_poller(ctx, poller, phc, std::time::Duration::from_millis(1000))));
+        LIFETIME.with(|l| *l.borrow_mut() = None);
+        if let Err(p) = r {
+            std::panic::resume_unwind(p);
+        }
+        let v = out.borrow().clone();
+        v
     }
 }
 
